@@ -258,6 +258,146 @@ impl<E: Elem> World<E> {
         self.check_reg(out, r, &op);
     }
 
+    /// the four outer view families: iter_rows / iter_cols (immutable) and iter_rows_mut /
+    /// iter_cols_mut, consumed by `opat`, each inner view by `ipat`; addresses are compared with
+    /// the reference (every item must be the element at its logical position)
+    pub fn views(&mut self, out: &mut Out, r: usize, family: &str, axis: &str, opat: &str, ipat: &str) {
+        let op = format!("{family} {r} {axis} {opat} {ipat}");
+        out.announce(&op);
+        let pat = |p: &str| -> Vec<char> { if p == "-" { Vec::new() } else { p.chars().collect() } };
+        let (op_, ip_) = (pat(opat), pat(ipat));
+        fn consume<I: ExactSizeIterator + DoubleEndedIterator>(mut it: I, pat: &[char]) -> Vec<(usize, I::Item)> {
+            let mut items = Vec::new();
+            let mut p = pat.iter();
+            loop {
+                let len = it.len();
+                let x = match p.next() { Some('B') => it.next_back(), _ => it.next() };
+                match x { Some(v) => items.push((len, v)), None => break }
+            }
+            items
+        }
+        let (_, rf) = self.refs[r].clone().unwrap();
+        let rows = axis == "rows";
+        let (al, vl) = if rows { (rf.nrows, rf.ncols) } else { (rf.ncols, rf.nrows) };
+        // (outer len, [(inner len, payload, address)])
+        let mut got: Vec<(usize, Vec<(usize, String, usize)>)> = Vec::new();
+        let res = {
+            let regs = &mut self.regs;
+            catch(|| {
+                let m = regs[r].as_mut().unwrap();
+                match (family, rows) {
+                    ("views", true) => { for (l, v) in consume(m.iter_rows(), &op_) { got.push((l, consume(v, &ip_).into_iter().map(|(k, e)| (k, e.show(), e as *const E as usize)).collect())); } }
+                    ("views", false) => { for (l, v) in consume(m.iter_cols(), &op_) { got.push((l, consume(v, &ip_).into_iter().map(|(k, e)| (k, e.show(), e as *const E as usize)).collect())); } }
+                    (_, true) => { for (l, v) in consume(m.iter_rows_mut(), &op_) { got.push((l, consume(v, &ip_).into_iter().map(|(k, e)| (k, e.show(), e as *const E as usize)).collect())); } }
+                    (_, false) => { for (l, v) in consume(m.iter_cols_mut(), &op_) { got.push((l, consume(v, &ip_).into_iter().map(|(k, e)| (k, e.show(), e as *const E as usize)).collect())); } }
+                }
+            })
+        };
+        if res.is_none() {
+            out.oracle_fail(&format!("{op}: the view family panicked"));
+            out.observe("panic");
+            return;
+        }
+        // oracle: exactly `al` vectors with outer len counting down; the k-th consumed vector is
+        // the vector the deque discipline says; items are the elements at the expected coordinates
+        if got.len() != al {
+            out.oracle_fail(&format!("{op}: {} vectors yielded, the matrix has {al}", got.len()));
+        }
+        let mut front = 0usize; let mut back = 0usize;
+        let m = self.regs[r].as_ref().unwrap();
+        for (n, (olen, items)) in got.iter().enumerate() {
+            if *olen != al.saturating_sub(n) {
+                out.oracle_fail(&format!("{op}: outer len() = {olen} before call {n} of {al}"));
+            }
+            let from_back = op_.get(n) == Some(&'B');
+            if front + back >= al { break; }
+            let k = if from_back { back += 1; al - back } else { front += 1; front - 1 };
+            if items.len() != vl {
+                out.oracle_fail(&format!("{op}: vector {k} has {} items, expected {vl}", items.len()));
+            }
+            let (mut f, mut b) = (0usize, 0usize);
+            for (j, (ilen, val, addr)) in items.iter().enumerate() {
+                if *ilen != vl.saturating_sub(j) {
+                    out.oracle_fail(&format!("{op}: inner len() = {ilen} before call {j} of {vl}"));
+                }
+                if f + b >= vl { break; }
+                let t = if ip_.get(j) == Some(&'B') { b += 1; vl - b } else { f += 1; f - 1 };
+                let (rr, cc) = if rows { (k, t) } else { (t, k) };
+                if rf.rows[rr][cc] != *val {
+                    out.oracle_fail(&format!("{op}: vector {k} item {t} is {val}, the element at ({rr}, {cc}) is {}", rf.rows[rr][cc]));
+                }
+                if size_of::<E>() != 0 && m.get((rr, cc)).map(|e| e as *const E as usize).ok() != Some(*addr) {
+                    out.oracle_fail(&format!("{op}: vector {k} item {t} is not the element get(({rr}, {cc})) returns"));
+                }
+            }
+        }
+        let txt: Vec<String> = got.iter().map(|(l, items)| format!("{l}:[{}]", items.iter().map(|(k, v, _)| format!("{k}:{v}")).collect::<Vec<_>>().join(","))).collect();
+        out.observe(&format!("ok [{}]", txt.join(",")));
+    }
+
+    /// iter_nth_row / iter_nth_col and their _mut forms
+    pub fn nth(&mut self, out: &mut Out, r: usize, kind: &str, n: usize, ipat: &str) {
+        let op = format!("nth {r} {kind} {n} {ipat}");
+        out.announce(&op);
+        let pat: Vec<char> = if ipat == "-" { Vec::new() } else { ipat.chars().collect() };
+        fn consume<I: ExactSizeIterator + DoubleEndedIterator>(mut it: I, pat: &[char]) -> Vec<(usize, I::Item)> {
+            let mut items = Vec::new();
+            let mut p = pat.iter();
+            loop {
+                let len = it.len();
+                let x = match p.next() { Some('B') => it.next_back(), _ => it.next() };
+                match x { Some(v) => items.push((len, v)), None => break }
+            }
+            items
+        }
+        let (_, rf) = self.refs[r].clone().unwrap();
+        let rows = kind.starts_with("row");
+        let (extent, vl) = if rows { (rf.nrows, rf.ncols) } else { (rf.ncols, rf.nrows) };
+        let mut got: Vec<(usize, String, usize)> = Vec::new();
+        let res: Option<Result<(), matreex::Error>> = {
+            let regs = &mut self.regs;
+            catch(|| {
+                let m = regs[r].as_mut().unwrap();
+                let map = |v: Vec<(usize, &E)>| -> Vec<(usize, String, usize)> { v.into_iter().map(|(k, e)| (k, e.show(), e as *const E as usize)).collect() };
+                match kind {
+                    "row" => m.iter_nth_row(n).map(|it| { got = map(consume(it, &pat)); }),
+                    "col" => m.iter_nth_col(n).map(|it| { got = map(consume(it, &pat)); }),
+                    "row_mut" => m.iter_nth_row_mut(n).map(|it| { got = consume(it, &pat).into_iter().map(|(k, e)| (k, e.show(), e as *const E as usize)).collect(); }),
+                    _ => m.iter_nth_col_mut(n).map(|it| { got = consume(it, &pat).into_iter().map(|(k, e)| (k, e.show(), e as *const E as usize)).collect(); }),
+                }
+            })
+        };
+        let obs = match res {
+            None => { out.oracle_fail(&format!("{op}: panicked")); "panic".to_string() }
+            Some(Err(e)) => {
+                if n < extent { out.oracle_fail(&format!("{op}: {} for a valid {} number", err_name(e), if rows { "row" } else { "column" })); }
+                format!("err {}", err_name(e))
+            }
+            Some(Ok(())) => {
+                if n >= extent {
+                    out.oracle_fail(&format!("{op}: Ok for n = {n} with only {extent} {}", if rows { "rows" } else { "columns" }));
+                } else {
+                    if got.len() != vl { out.oracle_fail(&format!("{op}: {} items, expected {vl}", got.len())); }
+                    let m = self.regs[r].as_ref().unwrap();
+                    let (mut f, mut b) = (0usize, 0usize);
+                    for (j, (ilen, val, addr)) in got.iter().enumerate() {
+                        if *ilen != vl.saturating_sub(j) { out.oracle_fail(&format!("{op}: len() = {ilen} before call {j} of {vl}")); }
+                        if f + b >= vl { break; }
+                        let t = if pat.get(j) == Some(&'B') { b += 1; vl - b } else { f += 1; f - 1 };
+                        let (rr, cc) = if rows { (n, t) } else { (t, n) };
+                        if rf.rows[rr][cc] != *val { out.oracle_fail(&format!("{op}: item {t} is {val}, the element at ({rr}, {cc}) is {}", rf.rows[rr][cc])); }
+                        if size_of::<E>() != 0 && m.get((rr, cc)).map(|e| e as *const E as usize).ok() != Some(*addr) {
+                            out.oracle_fail(&format!("{op}: item {t} is not the element get(({rr}, {cc})) returns"));
+                        }
+                    }
+                }
+                format!("ok [{}]", got.iter().map(|(k, v, _)| format!("{k}:{v}")).collect::<Vec<_>>().join(","))
+            }
+        };
+        out.count(&format!("nth:{}", if n < extent { "valid" } else { "invalid" }));
+        out.observe(&obs);
+    }
+
     /// swap_rows / swap_cols with any pair of indices
     pub fn swap_vecs(&mut self, out: &mut Out, r: usize, name: &str, a: usize, b: usize) {
         let op = format!("{name} {r} {a} {b}");
@@ -799,5 +939,130 @@ impl World<Tok> {
         }).collect();
         out.observe(&if res.is_some() { format!("ok [{}]", items.join(",")) } else { "panic".to_string() });
         self.check_reg(out, r, &op);
+    }
+
+    /// install a freshly constructed matrix (or record the failure) and compare with the reference
+    fn install(&mut self, out: &mut Out, op: &str, dst: usize, res: Option<Result<matreex::Matrix<Tok>, matreex::Error>>, want: Result<Ref, &str>) {
+        let obs = match res {
+            None => "panic".to_string(),
+            Some(Err(e)) => format!("err {}", err_name(e)),
+            Some(Ok(m)) => {
+                let s = format!("ok | {}", st_str(&m));
+                self.regs[dst] = Some(m);
+                s
+            }
+        };
+        match &want {
+            Ok(rf) => {
+                if !obs.starts_with("ok") {
+                    out.oracle_fail(&format!("{op}: expected a {}x{} matrix, implementation gave `{obs}`", rf.nrows, rf.ncols));
+                    self.refs[dst] = None;
+                    self.regs[dst] = None;
+                } else {
+                    self.refs[dst] = Some((matreex::Order::RowMajor, rf.clone()));
+                }
+            }
+            Err(w) => {
+                if obs != *w {
+                    out.oracle_fail(&format!("{op}: expected `{w}`, implementation gave `{obs}`"));
+                }
+                self.refs[dst] = None;
+                self.regs[dst] = None;
+            }
+        }
+        out.observe(&obs);
+        self.check_reg(out, dst, op);
+    }
+
+    /// `rows dst kind lens`: every conversion from rows
+    pub fn rows(&mut self, out: &mut Out, dst: usize, kind: &str, lens: &[usize]) {
+        let lens_s = if lens.is_empty() { "-".to_string() } else { lens.iter().map(|l| l.to_string()).collect::<Vec<_>>().join(",") };
+        let op = format!("rows {dst} {kind} {lens_s}");
+        out.announce(&op);
+        let mut next = 0usize;
+        let rows: Vec<Vec<Tok>> = lens.iter().map(|&n| (0..n).map(|_| { next += 1; Tok::new(next.to_string()) }).collect()).collect();
+        let borrowed = kind == "slice_array" || kind == "slice_vec";
+        let ncols = lens.first().copied().unwrap_or(0);
+        let uniform = lens.iter().all(|&l| l == ncols);
+        let want: Result<Ref, &str> = if uniform {
+            let mut k = 0usize;
+            Ok(Ref { nrows: lens.len(), ncols, rows: if ncols == 0 { Vec::new() } else { lens.iter().map(|&n| (0..n).map(|_| { k += 1; if borrowed { format!("{k}'") } else { k.to_string() } }).collect()).collect() } })
+        } else if kind == "iter" { Err("panic") } else { Err("err LengthInconsistent") };
+        fn arr<const C: usize>(row: Vec<Tok>) -> [Tok; C] { row.try_into().ok().unwrap() }
+        fn from_arrays<const C: usize>(kind: &str, rows: Vec<Vec<Tok>>) -> matreex::Matrix<Tok> {
+            let v: Vec<[Tok; C]> = rows.into_iter().map(arr::<C>).collect();
+            match kind {
+                "vec_array" => matreex::Matrix::from(v),
+                "slice_array" => matreex::Matrix::from(v.as_slice()),
+                _ => match v.len() {
+                    0 => matreex::Matrix::from(<[[Tok; C]; 0]>::try_from(v).ok().unwrap()),
+                    1 => matreex::Matrix::from(<[[Tok; C]; 1]>::try_from(v).ok().unwrap()),
+                    2 => matreex::Matrix::from(<[[Tok; C]; 2]>::try_from(v).ok().unwrap()),
+                    3 => matreex::Matrix::from(<[[Tok; C]; 3]>::try_from(v).ok().unwrap()),
+                    _ => matreex::Matrix::from(<[[Tok; C]; 4]>::try_from(v).ok().unwrap()),
+                },
+            }
+        }
+        fn from_array_of_vecs(rows: Vec<Vec<Tok>>) -> Result<matreex::Matrix<Tok>, matreex::Error> {
+            match rows.len() {
+                0 => matreex::Matrix::try_from(<[Vec<Tok>; 0]>::try_from(rows).ok().unwrap()),
+                1 => matreex::Matrix::try_from(<[Vec<Tok>; 1]>::try_from(rows).ok().unwrap()),
+                2 => matreex::Matrix::try_from(<[Vec<Tok>; 2]>::try_from(rows).ok().unwrap()),
+                3 => matreex::Matrix::try_from(<[Vec<Tok>; 3]>::try_from(rows).ok().unwrap()),
+                4 => matreex::Matrix::try_from(<[Vec<Tok>; 4]>::try_from(rows).ok().unwrap()),
+                _ => matreex::Matrix::try_from(<[Vec<Tok>; 5]>::try_from(rows).ok().unwrap()),
+            }
+        }
+        let res: Option<Result<matreex::Matrix<Tok>, matreex::Error>> = match kind {
+            "array" | "vec_array" | "slice_array" => catch(|| Ok(match ncols {
+                0 => from_arrays::<0>(kind, rows),
+                1 => from_arrays::<1>(kind, rows),
+                2 => from_arrays::<2>(kind, rows),
+                3 => from_arrays::<3>(kind, rows),
+                _ => from_arrays::<4>(kind, rows),
+            })),
+            "array_vec" => catch(|| from_array_of_vecs(rows)),
+            "vec_vec" => catch(|| matreex::Matrix::try_from(rows)),
+            "slice_vec" => catch(|| matreex::Matrix::try_from(rows.as_slice())),
+            _ => catch(|| Ok(rows.into_iter().collect::<matreex::Matrix<Tok>>())),
+        };
+        out.count(&format!("rows:{}", if uniform { "uniform" } else { "ragged" }));
+        out.count(&format!("kind:{kind}"));
+        self.install(out, &op, dst, res, want);
+    }
+
+    pub fn from_vec(&mut self, out: &mut Out, dst: usize, col: bool, n: usize) {
+        let op = format!("{} {dst} {n}", if col { "from_col" } else { "from_row" });
+        out.announce(&op);
+        let v: Vec<Tok> = (1..=n).map(|k| Tok::new(k.to_string())).collect();
+        let res = catch(|| Ok(if col { matreex::Matrix::from_col(v) } else { matreex::Matrix::from_row(v) }));
+        let items: Vec<String> = (1..=n).map(|k| k.to_string()).collect();
+        let want = if col { Ref { nrows: n, ncols: 1, rows: items.into_iter().map(|x| vec![x]).collect() } } else { Ref { nrows: 1, ncols: n, rows: if n == 0 { Vec::new() } else { vec![items] } } };
+        self.install(out, &op, dst, res, Ok(want));
+    }
+
+    /// with_value / with_default / with_initializer (the initializer's calls are recorded)
+    pub fn ctor(&mut self, out: &mut Out, dst: usize, kind: &str, nr: usize, nc: usize) {
+        let op = format!("ctor {dst} {kind} {nr} {nc}");
+        out.announce(&op);
+        let calls = std::cell::RefCell::new(Vec::new());
+        let res = match kind {
+            "with_value" => catch(|| matreex::Matrix::with_value((nr, nc), Tok::new("v"))),
+            "with_default" => catch(|| matreex::Matrix::<Tok>::with_default((nr, nc))),
+            _ => catch(|| matreex::Matrix::with_initializer((nr, nc), |i| { calls.borrow_mut().push((i.row, i.col)); Tok::new(format!("i{}.{}", i.row, i.col)) })),
+        };
+        let n = nr * nc;
+        let want = Ref { nrows: nr, ncols: nc, rows: if n == 0 { Vec::new() } else { (0..nr).map(|r| (0..nc).map(|c| match kind {
+            "with_value" => if r * nc + c + 1 < n { "v'".to_string() } else { "v".to_string() },
+            "with_default" => "d".to_string(),
+            _ => format!("i{r}.{c}"),
+        }).collect()).collect() } };
+        if kind == "with_init" {
+            let expect: Vec<(usize, usize)> = if n == 0 { Vec::new() } else { (0..nr).flat_map(|r| (0..nc).map(move |c| (r, c))).collect() };
+            if *calls.borrow() != expect {
+                out.oracle_fail(&format!("{op}: the initializer was called with {:?}", calls.borrow()));
+            }
+        }
+        self.install(out, &op, dst, res, Ok(want));
     }
 }
